@@ -249,54 +249,65 @@ func members(p *proc) (map[string]string, error) {
 	return out, nil
 }
 
-// observe: wait (bounded, 12 s) until every live node reports the same catalogue and membership and
-// nothing changed between two polls; then log every node's views (agreeing or not)
 func observe(ps []*proc, tag string) {
-	var last string
-	dl := time.Now().Add(45 * time.Second)
-	for time.Now().Before(dl) {
-		cur := ""
-		agree := true
-		first := ""
+	type nv struct {
+		p      *proc
+		c      []dsView
+		m      map[string]string
+		e1, e2 error
+		key    string
+	}
+	read := func() []nv {
+		out := []nv{}
 		for _, p := range ps {
 			if p.checkAlive() {
-				c, _ := catalogue(p)
-				m, _ := members(p)
+				c, e1 := catalogue(p)
+				m, e2 := members(p)
 				b, _ := json.Marshal([]interface{}{c, m})
-				cur += string(b)
-				if first == "" {
-					first = string(b)
-				} else if string(b) != first {
-					agree = false
-				}
+				out = append(out, nv{p, c, m, e1, e2, string(b)})
 			}
 		}
-		if cur == last && agree {
+		return out
+	}
+	// The views that are logged are the ones that were compared: two consecutive rounds in which every live
+	// node gave the same answer (replica sets keep changing in the background while the allocators work, so
+	// views read at different moments may differ without anything being wrong).  Without agreement within
+	// the deadline the last round is logged as it is.
+	var last string
+	var cur []nv
+	dl := time.Now().Add(45 * time.Second)
+	for {
+		cur = read()
+		all := ""
+		agree := true
+		for i, v := range cur {
+			all += v.key
+			if i > 0 && v.key != cur[0].key {
+				agree = false
+			}
+		}
+		if (all == last && agree) || !time.Now().Before(dl) {
 			break
 		}
-		last = cur
+		last = all
 		time.Sleep(500 * time.Millisecond)
 	}
-	for _, p := range ps {
-		if !p.checkAlive() {
-			continue
-		}
-		c, e1 := catalogue(p)
-		m, e2 := members(p)
+	for _, v := range cur {
 		es := ""
-		if e1 != nil {
-			es += "catalogue: " + e1.Error() + " "
+		if v.e1 != nil {
+			es += "catalogue: " + v.e1.Error() + " "
 		}
-		if e2 != nil {
-			es += "members: " + e2.Error()
+		if v.e2 != nil {
+			es += "members: " + v.e2.Error()
 		}
+		c, m := v.c, v.m
 		if c == nil {
 			c = []dsView{}
 		}
 		if m == nil {
 			m = map[string]string{}
 		}
-		emit(event{"ev": "view", "node": p.id, "after": tag, "datasets": c, "members": m, "err": es})
+		emit(event{"ev": "view", "node": v.p.id, "after": tag, "datasets": c, "members": m, "err": es})
 	}
 }
 
@@ -935,8 +946,8 @@ func main() {
 		}
 		emit(event{"ev": "joined", "node": 4, "addr": ":" + d.port, "ok": okv})
 		observe(ps, "join")
-		for i := 0; i < 4; i++ {
-			create(a, 2, 3)
+		for i := 0; i < 6; i++ {
+			create(a, 3, 3) // many replica sets: the leaving node is in most of them, at any position
 		}
 		observe(ps, "create")
 		b.kill()
